@@ -114,7 +114,7 @@ def check(repo: Repo) -> Result:
     from rules.common import share
 
     r6 = res.rule("C11-R6", "a deep copy owns its registry, and a restored registry owns its memo: the same follow-up program (edit a registry, then resolve a unit name) gives the same result on the copy / the restored object as on the original (shared with C13-R1)", floor=2)
-    share(res, r6, "C13", lambda t: c13.ownership(repo, t), ["C13-R1"], want=lambda k: k in ("unyt_array.__deepcopy__:deep-unit", "Unit.copy:deep-owns-registry", "Unit.__deepcopy__") or k.endswith(":no-class-level-state"), min_keys=5)
+    share(res, r6, "C13", lambda t: c13.ownership(repo, t), ["C13-R1"], want=lambda k: k in ("unyt_array.__deepcopy__:deep-unit", "Unit.copy:deep-owns-registry", "Unit.__deepcopy__", "init", "unit_registry.py:UnitRegistry.__deepcopy__", "deepcopy-table") or k.endswith(":no-class-level-state"), min_keys=7)
     return res
 
 
